@@ -5,11 +5,17 @@ package main
 
 import (
 	"bytes"
+	"fmt"
 	"math/rand"
+	"os"
 	"strings"
+	"time"
 
+	"github.com/pyroscope-io/pyroscope/pkg/storage"
 	"github.com/pyroscope-io/pyroscope/pkg/storage/dict"
 	"verifharness/lib"
+	"verifharness/lib/stor"
+	"verifharness/lib/treeu"
 )
 
 type Op struct {
@@ -23,6 +29,15 @@ type Input struct {
 	// Reuse: every Put is issued from ONE caller-owned buffer that is overwritten in place between calls and
 	// scribbled over right after Put returns (a scanner / scratch buffer); otherwise from a fresh slice
 	Reuse bool `json:"reuse,omitempty"`
+	// Stor: storage-level history of ONE application (replaces Ops): uploads into consecutive 10 s slots, write-back
+	// ticks of the periodic task (storage.VerifWriteBack), evictions of a cache, then Close + New and a render
+	Stor []StorStep `json:"stor,omitempty"`
+}
+
+type StorStep struct {
+	K      string        `json:"k"` // put | wb | evict
+	Stacks []treeu.Stack `json:"stacks,omitempty"`
+	Cache  string        `json:"cache,omitempty"` // evict: dicts | trees
 }
 
 // the caller's reused buffer (Reuse mode)
@@ -88,7 +103,85 @@ func splitHappened(a, b *dict.VerifNode) bool {
 	return false
 }
 
+const storT0 = 1341253200
+
+var storSeq int
+
+func runStor(in Input) (res lib.Result) {
+	defer func() {
+		if r := recover(); r != nil {
+			res = lib.Result{Crash: fmt.Sprintf("storage panicked: %v", r)}
+		}
+	}()
+	storSeq++
+	dir := fmt.Sprintf("/tmp/tree-b-c12stor-%d-%d", os.Getpid(), storSeq)
+	os.RemoveAll(dir)
+	st, err := stor.Open(dir, 0, 2048)
+	if err != nil {
+		return lib.Result{Crash: "harness: cannot open storage: " + err.Error()}
+	}
+	defer st.Destroy()
+	key, _ := storage.ParseKey("c12.app{}")
+	var all []treeu.Stack
+	slot, wbs, evicts, putsAfterWB, newNamesAfterWB := 0, 0, 0, 0, 0
+	seen := map[string]bool{}
+	for _, step := range in.Stor {
+		switch step.K {
+		case "put":
+			from := int64(storT0 + 10*slot)
+			slot++
+			if err := st.S.Put(&storage.PutInput{StartTime: time.Unix(from, 0), EndTime: time.Unix(from+10, 0), Key: key,
+				Val: treeu.Build(step.Stacks), SpyName: "spy", SampleRate: 100, Units: "samples", AggregationType: "sum"}); err != nil {
+				return lib.Result{Crash: "Put failed: " + err.Error()}
+			}
+			all = append(all, step.Stacks...)
+			if wbs > 0 {
+				putsAfterWB++
+			}
+			for _, s := range step.Stacks {
+				for _, f := range bytes.Split(s.Key, []byte(";")) {
+					if !seen[string(f)] {
+						seen[string(f)] = true
+						if wbs > 0 {
+							newNamesAfterWB++
+						}
+					}
+				}
+			}
+		case "wb":
+			st.S.VerifWriteBack()
+			wbs++
+		case "evict":
+			st.S.VerifEvict(step.Cache, 1)
+			evicts++
+		}
+	}
+	render := func() string {
+		out, err := st.S.Get(&storage.GetInput{StartTime: time.Unix(storT0, 0), EndTime: time.Unix(int64(storT0+10*(slot+1)), 0), Key: key})
+		if err != nil || out == nil || out.Tree == nil {
+			return "None"
+		}
+		return lib.Some(treeu.Coq(out.Tree.VerifDump()))
+	}
+	before := render()
+	if err := st.Reopen(); err != nil {
+		return lib.Result{Crash: "Close/New failed: " + err.Error()}
+	}
+	after := render()
+	coq := "{| c_ops := []; c_obs := []; c_stor := (Some {| sr_stacks := " + treeu.CoqStacks(all) + "; sr_before := " + before +
+		"; sr_after := " + after + " |}) |}"
+	return lib.Result{
+		Coq:        coq,
+		NonTrivial: newNamesAfterWB > 0,
+		Feat: map[string]interface{}{"stream": "storage", "writeback_ticks": wbs, "evictions": evicts, "puts_after_writeback": putsAfterWB,
+			"new_names_after_writeback_class": bigClass(newNamesAfterWB * 100)},
+	}
+}
+
 func run(in Input) lib.Result {
+	if len(in.Stor) > 0 {
+		return runStor(in)
+	}
 	d := dict.New()
 	var keys [][]byte
 	ops := make([]string, 0, len(in.Ops))
@@ -190,7 +283,7 @@ func run(in Input) lib.Result {
 		obs = append(obs, "{| so_key := "+lib.Bytes(key)+"; so_keys := "+lib.BytesList(batchKeys)+"; so_ok := "+lib.Bool(ok)+
 			"; so_dump := "+coqTrie(d.VerifDump())+"; so_gets := "+lib.List(gets)+"; so_probe := "+probe+" |}")
 	}
-	coq := "{| c_ops := " + lib.List(ops) + "; c_obs := " + lib.List(obs) + " |}"
+	coq := "{| c_ops := " + lib.List(ops) + "; c_obs := " + lib.List(obs) + "; c_stor := None |}"
 	return lib.Result{
 		Coq:        coq,
 		NonTrivial: splits >= 1 && puts >= 2,
@@ -312,6 +405,49 @@ func genDeep(r *rand.Rand) Input {
 		branches = append(branches, b)
 	}
 	in.Ops = append(in.Ops, Op{K: "puts", Ns: branches}, Op{K: "reload"}, Op{K: "put", D: append(append([]byte{}, cur...), 'z')})
+	return in
+}
+
+// storage-level stream: ingest, write-back ticks, ingest of NEW names for the same application, Close, New, render
+func genStor(r *rand.Rand) Input {
+	var in Input
+	nameSeq := 0
+	frames := []string{"main", "handleRequest", "parseBody", "readAll", "net/http.(*conn).serve", "runtime.mallocgc", "a", "ab"}
+	stacks := func(fresh bool) []treeu.Stack {
+		var ss []treeu.Stack
+		for i := lib.Range(r, 1, 3); i > 0; i-- {
+			var parts []string
+			for j := lib.Range(r, 1, 4); j > 0; j-- {
+				if fresh && r.Intn(2) == 0 {
+					nameSeq++
+					parts = append(parts, fmt.Sprintf("%s%d", lib.Pick(r, frames), nameSeq))
+				} else {
+					parts = append(parts, lib.Pick(r, frames))
+				}
+			}
+			ss = append(ss, treeu.Stack{Key: []byte(strings.Join(parts, ";")), V: uint64(lib.Range(r, 1, 9))})
+		}
+		return ss
+	}
+	put := func(fresh bool) { in.Stor = append(in.Stor, StorStep{K: "put", Stacks: stacks(fresh)}) }
+	wb := func(n int) {
+		for ; n > 0; n-- {
+			in.Stor = append(in.Stor, StorStep{K: "wb"})
+		}
+	}
+	put(true)
+	for i := lib.Range(r, 1, 3); i > 0; i-- {
+		switch r.Intn(4) {
+		case 0:
+			in.Stor = append(in.Stor, StorStep{K: "evict", Cache: lib.Pick(r, []string{"dicts", "trees"})})
+		default:
+			wb(lib.Range(r, 1, 3))
+		}
+		put(true)
+		if r.Intn(3) == 0 {
+			put(false)
+		}
+	}
 	return in
 }
 
@@ -440,6 +576,9 @@ func gen(r *rand.Rand, idx int, tier string) Input {
 	}
 	if idx%150 == 75 {
 		return genDeep(r)
+	}
+	if idx%60 == 30 {
+		return genStor(r)
 	}
 	var in Input
 	in.Reuse = r.Intn(2) == 0
